@@ -503,6 +503,11 @@ func main() {
 			}
 		default:
 			var content []byte
+			if strings.Contains(r.log, "HARNESS-ERROR") {
+				inconclusive++
+				lines = append(lines, fmt.Sprintf("INCONCLUSIVE: %s shard %d: harness error; log %s", r.check.Test, r.shard, filepath.Join(workDir, fmt.Sprintf("%s.%d.log", r.check.Test, r.shard))))
+				continue
+			}
 			if fb, err := os.ReadFile(r.failFile); err == nil && strings.Contains(r.log, "--- FAIL") && !crashed(r.log) {
 				content = fb
 			} else if crashed(r.log) || r.exit == 66 {
@@ -521,7 +526,7 @@ func main() {
 					}
 					content = jb
 				}
-			} else if strings.Contains(r.log, "harness:") && !strings.Contains(r.log, "property "+*property+" violated") {
+			} else if strings.Contains(r.log, "HARNESS-ERROR") || strings.Contains(r.log, "harness:") && !strings.Contains(r.log, "property "+*property+" violated") {
 				inconclusive++
 				lines = append(lines, fmt.Sprintf("INCONCLUSIVE: %s shard %d: harness error (exit %d); log %s", r.check.Test, r.shard, r.exit, filepath.Join(workDir, fmt.Sprintf("%s.%d.log", r.check.Test, r.shard))))
 				continue
